@@ -77,9 +77,9 @@ def epochBoundConvertedOnce : Bool :=
 def widensSmallIntegers : Bool :=
   hasInfix ["call:outputColumnSeries.GetColumn", "call:widenIntegerColumn", "typeswitch{"] materialize &&
   sqlparser_widenIntegerColumn ==
-    ["typeswitch{", "case{", "call:toInt64s", "return", "}", "case{", "call:toInt64s", "return", "}",
-     "case{", "call:toInt64s", "return", "}", "case{", "call:toInt64s", "return", "}",
-     "case{", "call:toInt64s", "return", "}", "case{", "call:toInt64s", "return", "}", "}", "return"]
+    ["typeswitch{", "case:[]int8{", "call:toInt64s", "return", "}", "case:[]int16{", "call:toInt64s", "return", "}",
+     "case:[]uint8{", "call:toInt64s", "return", "}", "case:[]uint16{", "call:toInt64s", "return", "}",
+     "case:[]uint32{", "call:toInt64s", "return", "}", "case:[]uint64{", "call:toInt64s", "return", "}", "}", "return"]
 
 /-- the int32 case compares `int64(val)` with the un-narrowed literal -/
 def int32ComparedWide : Bool :=
